@@ -11,19 +11,23 @@ pub fn run(args: kvcore::Args) {
     let rt = srv::rt();
     rt.block_on(async {
         let mut rng = Rng::new(1);
-        let mut w = World::new(&WorldCfg { replicas: 1, file_backed: None }, &mut rng).await;
+        let mut w = World::new(&WorldCfg { replicas: 1, level: 14, file_backed: None }, &mut rng).await;
         let g0 = Obj(Kind::Group, 0);
         let d0 = Obj(Kind::DynGroup, 0);
         let g0 = d0;
         for op in [
             Op::Create { r: 0, obj: d0, name: 1, bad_spn: false },
-            Op::DynFilter { r: 0, grp: d0, filter: 6 },
-            Op::DynFilter { r: 0, grp: d0, filter: 4 },
-            Op::DynFilter { r: 0, grp: d0, filter: 6 },
-            Op::SetDesc { r: 0, obj: d0, val: Some(1) },
+            Op::Create { r: 0, obj: Obj(Kind::Person, 0), name: 2, bad_spn: false },
+            Op::SchemaAttr { r: 0, idx: 0, multi: false },
+            Op::SchemaClass { r: 0, idx: 0 },
+            Op::CustomSet { r: 0, obj: Obj(Kind::Person, 0), idx: 0, with_class: true },
+            Op::CustomSet { r: 0, obj: Obj(Kind::Person, 0), idx: 0, with_class: false },
+            Op::ClassRemove { r: 0, obj: Obj(Kind::Person, 0), idx: 0 },
         ] {
             let rec = w.apply(op).await;
             println!("{:?} -> {} {}", rec.op, rec.ok, rec.detail);
+            let snap = crate::mon::schema_snap(w.qs(0)).await;
+            println!("   schema has attr: {:?} class: {:?}", snap.attrs.keys().filter(|k| k.contains("verif")).collect::<Vec<_>>(), snap.classes.keys().filter(|k| k.contains("verif")).collect::<Vec<_>>());
             println!("   d0 dynmember = {:?}", srv::dump_strs(&w.dumps[0].entries[&g0.uuid()], "dynmember"));
             println!("   admin memberof = {:?}", srv::dump_strs(&w.dumps[0].entries[&uuid::uuid!("00000000-0000-0000-0000-000000000000")], "memberof"));
             if let Some(o) = w.dumps[0].entries.get(&Obj(Kind::OAuth2, 0).uuid()) { println!("   o0 scopemap = {:?}", srv::dump_attrs(o).and_then(|m| m.get("oauth2_rs_scope_map"))); }
